@@ -271,4 +271,640 @@ theorem overlay_view_at {rbs : List (Nat × Patch)} {h : List Ver} (hc : HChain 
   rw [← hml]
   exact overlay_view_mid rbs v older mid hcc hrc w hwm
 
+/-! ### 3. the invariant of the cached manager -/
+
+/-- the entries of both levels -/
+def CLdb.ents (s : CLdb) : List CEnt := s.l1 ++ s.l2
+
+/-- what holds for an overlay object `o` that some cache entry references. `v` is the version it reconstructs, `top` the
+    height it has REALLY been folded up to (≥ the tag of every entry that references it; the tag of an entry that stayed
+    behind in the other level may be smaller). Every entry and every handed-out view that shares the object is for `v`;
+    a view's snapshot is the content of some version between `v` and `top`. -/
+structure ObjInv (s : CLdb) (h : List Ver) (o : Nat) (v : Ver) (top : Nat) : Prop where
+  mem : v ∈ h
+  lo : v.id.height ≤ top
+  hi : top ≤ h.length
+  obj : s.heap[o]? = some (buildOverlay s.ldb.rollbacks v.id.height (top - v.id.height) [])
+  ents : ∀ e ∈ s.ents, e.obj = o →
+    e.id = v.id ∧ (∃ w ∈ h, w.id = e.tag) ∧ v.id.height ≤ e.tag.height ∧ e.tag.height ≤ top
+  views : ∀ vw ∈ s.views, vw.obj = o →
+    vw.id = v.id ∧ Sorted vw.snap ∧ ∃ w ∈ h, KvLogic.abs vw.snap = w.store ∧ v.id.height ≤ w.id.height ∧ w.id.height ≤ top
+
+/-- the invariant of the cached manager: the cache-free part satisfies `Inv`, every referenced object satisfies `ObjInv`,
+    every handed-out view points into the heap -/
+structure CInv (s : CLdb) (h : List Ver) : Prop where
+  inv : Inv s.ldb h
+  objs : ∀ e ∈ s.ents, ∃ v top, ObjInv s h e.obj v top
+  viewsLt : ∀ vw ∈ s.views, vw.obj < s.heap.length
+
+theorem lookupC_some {l : List CEnt} {i : Id} {e : CEnt} (h : lookupC l i = some e) : e ∈ l ∧ e.id = i := by
+  induction l with
+  | nil => simp [lookupC] at h
+  | cons x t ih =>
+    simp only [lookupC] at h
+    split at h
+    · rename_i hx
+      cases h
+      exact ⟨by simp, hx⟩
+    · exact ⟨List.mem_cons_of_mem _ (ih h).1, (ih h).2⟩
+
+theorem lookupC_none {l : List CEnt} {i : Id} (h : lookupC l i = none) : ∀ e ∈ l, e.id ≠ i := by
+  induction l with
+  | nil => intro e he; simp at he
+  | cons x t ih =>
+    simp only [lookupC] at h
+    split at h
+    · cases h
+    · rename_i hx
+      intro e he
+      rcases List.mem_cons.1 he with rfl | he
+      · exact hx
+      · exact ih h e he
+
+theorem mem_cacheAdd {l : List CEnt} {e x : CEnt} (h : x ∈ cacheAdd l e) : x = e ∨ x ∈ l := by
+  simp only [cacheAdd, List.mem_cons, List.mem_filter] at h
+  rcases h with h | h
+  · exact Or.inl h
+  · exact Or.inr h.1
+
+theorem mem_cacheEvict {l : List CEnt} {i : Id} {x : CEnt} (h : x ∈ cacheEvict l i) : x ∈ l := by
+  simp only [cacheEvict, List.mem_filter] at h
+  exact h.1
+
+/-- relation between the cached and the cache-free `Get`: same case distinction -/
+theorem get_cases (cfg : Cfg) (s : CLdb) (i : Id) (hs : s.stopped = false) :
+    (s.get cfg i = (s, none) ∧ s.ldb.get i = none) ∨
+    (s.get cfg i = (s, some CRoot.mem) ∧ s.ldb.get i = some Root.mem) ∨
+    (s.get cfg i = (s, some (CRoot.front s.ldb.frontier)) ∧ s.ldb.get i = some (Root.front s.ldb.frontier)) ∨
+    (s.get cfg i = s.getHist cfg i ∧ i.isZero = false ∧ i ≠ s.ldb.frontierId ∧
+      s.ldb.get i = some (Root.hist
+        (buildOverlay s.ldb.rollbacks i.height (s.ldb.frontierId.height - i.height) []) s.ldb.frontier)) := by
+  unfold CLdb.get Ldb.get
+  simp only [hs, Bool.false_eq_true, if_false]
+  by_cases hz : i.isZero = true
+  · simp [hz]
+  · by_cases hf : i = s.ldb.frontierId
+    · right; right; left
+      simp only [hz, Bool.false_eq_true, if_false, if_pos hf, and_self]
+    · simp only [hz, Bool.false_eq_true, if_false, if_neg hf]
+      cases hd : edDecode (rget s.ldb.frontier (keyHeightByHash i.hash)) with
+      | none => left; simp
+      | some hb =>
+        by_cases hh : beVal hb = i.height
+        · right; right; right
+          simp [hh, hf]
+        · left; simp [hh]
+
+/-- the cached part of `Get` with the hit made explicit -/
+def getHistWith (cfg : Cfg) (s : CLdb) (i to : Id) (o : Nat) (heap0 : List Raw) : CLdb × Option CRoot :=
+  let f := s.ldb.frontierId
+  let raw := buildOverlay s.ldb.rollbacks to.height (f.height - to.height) (objAt heap0 o)
+  let e : CEnt := ⟨i, f, o⟩
+  let near := decide (absDiff i.height f.height < cfg.maxDiff)
+  ({ s with heap := heap0.set o raw,
+            l1 := if near then cacheAdd s.l1 e else s.l1,
+            l2 := if near then s.l2 else cacheAdd s.l2 e,
+            views := ⟨i, s.ldb.frontier, o⟩ :: s.views },
+   some (CRoot.hist o s.ldb.frontier))
+
+theorem getHist_l1 {cfg : Cfg} {s : CLdb} {i : Id} {e : CEnt} (h : lookupC s.l1 i = some e) :
+    s.getHist cfg i = getHistWith cfg s i e.tag e.obj s.heap := by
+  simp [CLdb.getHist, getHistWith, h]
+
+theorem getHist_l2 {cfg : Cfg} {s : CLdb} {i : Id} {e : CEnt} (h1 : lookupC s.l1 i = none)
+    (h : lookupC s.l2 i = some e) : s.getHist cfg i = getHistWith cfg s i e.tag e.obj s.heap := by
+  simp [CLdb.getHist, getHistWith, h1, h]
+
+theorem getHist_fresh {cfg : Cfg} {s : CLdb} {i : Id} (h1 : lookupC s.l1 i = none) (h2 : lookupC s.l2 i = none) :
+    s.getHist cfg i = getHistWith cfg s i i s.heap.length (s.heap ++ [[]]) := by
+  simp [CLdb.getHist, getHistWith, h1, h2]
+
+theorem mem_ents_getHistWith {cfg : Cfg} {s : CLdb} {i to : Id} {o : Nat} {heap0 : List Raw} {x : CEnt}
+    (h : x ∈ (getHistWith cfg s i to o heap0).1.ents) : x = ⟨i, s.ldb.frontierId, o⟩ ∨ x ∈ s.ents := by
+  simp only [getHistWith, CLdb.ents, List.mem_append] at h ⊢
+  by_cases hn : absDiff i.height s.ldb.frontierId.height < cfg.maxDiff
+  · simp only [hn, decide_true, if_true] at h
+    rcases h with h | h
+    · rcases mem_cacheAdd h with h | h
+      · exact Or.inl h
+      · exact Or.inr (Or.inl h)
+    · exact Or.inr (Or.inr h)
+  · simp only [hn, decide_false, Bool.false_eq_true, if_false] at h
+    rcases h with h | h
+    · exact Or.inr (Or.inl h)
+    · rcases mem_cacheAdd h with h | h
+      · exact Or.inl h
+      · exact Or.inr (Or.inr h)
+
+theorem inv0_frontierHeight {s : Ldb} {h : List Ver} (hi : Inv0 s h) : s.frontierId.height = h.length := by
+  rw [hi.frontierId, hi.hchain.topHeight]
+
+/-- the cached part of `Get` keeps the invariant, and the object it hands out is exactly the overlay the cache-free
+    `Get` folds from scratch. `top` = the height the hit object has been folded up to, `to` = the tag found. -/
+theorem CInv.getHistWith_inv {cfg : Cfg} {s : CLdb} {h : List Ver} (hi : CInv s h) {v : Ver} (hv : v ∈ h)
+    (to : Id) (o : Nat) (heap0 : List Raw) (top : Nat)
+    (hlo : v.id.height ≤ to.height) (hto : to.height ≤ top) (htop : top ≤ h.length)
+    (hobj : heap0[o]? = some (buildOverlay s.ldb.rollbacks v.id.height (top - v.id.height) []))
+    (hother : ∀ o', o' ≠ o → o' < s.heap.length → heap0[o']? = s.heap[o']?)
+    (hlen : s.heap.length ≤ heap0.length)
+    (hents : ∀ e ∈ s.ents, e.obj = o →
+      e.id = v.id ∧ (∃ w ∈ h, w.id = e.tag) ∧ v.id.height ≤ e.tag.height ∧ e.tag.height ≤ top)
+    (hviews : ∀ vw ∈ s.views, vw.obj = o →
+      vw.id = v.id ∧ Sorted vw.snap ∧
+        ∃ w ∈ h, KvLogic.abs vw.snap = w.store ∧ v.id.height ≤ w.id.height ∧ w.id.height ≤ top) :
+    CInv (getHistWith cfg s v.id to o heap0).1 h ∧
+    objAt (getHistWith cfg s v.id to o heap0).1.heap o =
+      buildOverlay s.ldb.rollbacks v.id.height (s.ldb.frontierId.height - v.id.height) [] := by
+  have hF : s.ldb.frontierId.height = h.length := inv0_frontierHeight hi.inv.inv0
+  have hvh := hi.inv.inv0.hchain.mem_height hv
+  have holt : o < heap0.length := by
+    rcases Nat.lt_or_ge o heap0.length with hl | hl
+    · exact hl
+    · rw [List.getElem?_eq_none hl] at hobj; cases hobj
+  have hraw : buildOverlay s.ldb.rollbacks to.height (s.ldb.frontierId.height - to.height) (objAt heap0 o) =
+      buildOverlay s.ldb.rollbacks v.id.height (s.ldb.frontierId.height - v.id.height) [] := by
+    have : objAt heap0 o = buildOverlay s.ldb.rollbacks v.id.height (top - v.id.height) [] := by
+      simp [objAt, hobj]
+    rw [this, hF]
+    exact overlay_extend _ _ _ _ _ hlo hto htop
+      (fun j h1 h2 => hi.inv.inv0.rb.isSome hi.inv.inv0.hchain j (by omega) h2)
+  have hheap : (getHistWith cfg s v.id to o heap0).1.heap =
+      heap0.set o (buildOverlay s.ldb.rollbacks v.id.height (s.ldb.frontierId.height - v.id.height) []) := by
+    simp only [getHistWith, hraw]
+  have hself : (getHistWith cfg s v.id to o heap0).1.heap[o]? =
+      some (buildOverlay s.ldb.rollbacks v.id.height (s.ldb.frontierId.height - v.id.height) []) := by
+    rw [hheap, List.getElem?_set_self holt]
+  have hoth : ∀ o', o' ≠ o → o' < s.heap.length →
+      (getHistWith cfg s v.id to o heap0).1.heap[o']? = s.heap[o']? := by
+    intro o' hne hl
+    rw [hheap, List.getElem?_set_ne (Ne.symm hne)]
+    exact hother o' hne hl
+  have hldb : (getHistWith cfg s v.id to o heap0).1.ldb = s.ldb := rfl
+  have hvs : (getHistWith cfg s v.id to o heap0).1.views = ⟨v.id, s.ldb.frontier, o⟩ :: s.views := rfl
+  -- the newest version: its identifier is the tag of the new entry, its content the snapshot of the new view
+  obtain ⟨t, ht, htid, hts, hth⟩ : ∃ t ∈ h, t.id = s.ldb.frontierId ∧ KvLogic.abs s.ldb.frontier = t.store ∧
+      t.id.height = h.length := by
+    cases h with
+    | nil => simp at hv
+    | cons t h' =>
+      refine ⟨t, by simp, ?_, ?_, ?_⟩
+      · rw [hi.inv.inv0.frontierId]; rfl
+      · rw [hi.inv.inv0.front]; rfl
+      · rw [← hF, hi.inv.inv0.frontierId]; rfl
+  refine ⟨⟨hi.inv, ?_, ?_⟩, ?_⟩
+  · intro e' he'
+    by_cases heo : e'.obj = o
+    · refine ⟨v, h.length, hv, hvh.2, Nat.le_refl _, ?_, ?_, ?_⟩
+      · rw [heo, hself, hldb, hF]
+      · intro e'' he'' ho''
+        rcases mem_ents_getHistWith he'' with rfl | hold
+        · exact ⟨rfl, ⟨t, ht, htid⟩, by simp only []; rw [hF]; exact hvh.2, by simp only []; rw [hF]; exact Nat.le_refl _⟩
+        · obtain ⟨a, b, c, d⟩ := hents e'' hold (by rw [ho'', heo])
+          exact ⟨a, b, c, by omega⟩
+      · intro vw hvw ho''
+        rw [hvs] at hvw
+        rcases List.mem_cons.1 hvw with rfl | hold
+        · exact ⟨rfl, hi.inv.inv0.sorted, t, ht, hts, by omega, by omega⟩
+        · obtain ⟨a, b, w, hw, c, d, e⟩ := hviews vw hold (by rw [ho'', heo])
+          exact ⟨a, b, w, hw, c, d, by omega⟩
+    · have hold : e' ∈ s.ents := by
+        rcases mem_ents_getHistWith he' with rfl | hold
+        · exact absurd rfl heo
+        · exact hold
+      obtain ⟨v', top', hoi⟩ := hi.objs e' hold
+      have hlt : e'.obj < s.heap.length := by
+        rcases Nat.lt_or_ge e'.obj s.heap.length with hl | hl
+        · exact hl
+        · have := hoi.obj; rw [List.getElem?_eq_none hl] at this; cases this
+      refine ⟨v', top', hoi.mem, hoi.lo, hoi.hi, ?_, ?_, ?_⟩
+      · rw [hoth _ heo hlt, hldb]; exact hoi.obj
+      · intro e'' he'' ho''
+        rcases mem_ents_getHistWith he'' with rfl | hold''
+        · exact absurd ho''.symm heo
+        · exact hoi.ents e'' hold'' ho''
+      · intro vw hvw ho''
+        rw [hvs] at hvw
+        rcases List.mem_cons.1 hvw with rfl | hold''
+        · exact absurd ho''.symm heo
+        · exact hoi.views vw hold'' ho''
+  · intro vw hvw
+    rw [hvs] at hvw
+    rw [hheap, List.length_set]
+    rcases List.mem_cons.1 hvw with rfl | hold
+    · exact holt
+    · exact Nat.lt_of_lt_of_le (hi.viewsLt vw hold) hlen
+  · simp [objAt, hself]
+
+/-- the shape of a `Get` on a running manager: either nothing changes and the answer is the cache-free one, or it is the
+    cached part with a hit entry of one of the levels / a fresh object when neither level knows the identifier -/
+theorem get_shape (cfg : Cfg) (s : CLdb) (i : Id) (hs : s.stopped = false) :
+    ((s.get cfg i).1 = s ∧ (s.get cfg i).2.map (CRoot.resolve s.heap) = s.ldb.get i) ∨
+    (∃ to o heap0, s.get cfg i = getHistWith cfg s i to o heap0 ∧ i.isZero = false ∧ i ≠ s.ldb.frontierId ∧
+      s.ldb.get i = some (Root.hist
+        (buildOverlay s.ldb.rollbacks i.height (s.ldb.frontierId.height - i.height) []) s.ldb.frontier) ∧
+      ((∃ e ∈ s.ents, e.id = i ∧ e.tag = to ∧ e.obj = o ∧ heap0 = s.heap) ∨
+       (to = i ∧ o = s.heap.length ∧ heap0 = s.heap ++ [[]] ∧ ∀ e ∈ s.ents, e.id ≠ i))) := by
+  rcases get_cases cfg s i hs with ⟨h1, h2⟩ | ⟨h1, h2⟩ | ⟨h1, h2⟩ | ⟨h1, hz, hf, h2⟩
+  · left; rw [h1, h2]; exact ⟨rfl, rfl⟩
+  · left; rw [h1, h2]; exact ⟨rfl, rfl⟩
+  · left; rw [h1, h2]; exact ⟨rfl, rfl⟩
+  · right
+    cases hl1 : lookupC s.l1 i with
+    | some e =>
+      obtain ⟨hm, hid⟩ := lookupC_some hl1
+      exact ⟨e.tag, e.obj, s.heap, by rw [h1, getHist_l1 hl1], hz, hf, h2,
+        Or.inl ⟨e, List.mem_append_left _ hm, hid, rfl, rfl, rfl⟩⟩
+    | none =>
+      cases hl2 : lookupC s.l2 i with
+      | some e =>
+        obtain ⟨hm, hid⟩ := lookupC_some hl2
+        exact ⟨e.tag, e.obj, s.heap, by rw [h1, getHist_l2 hl1 hl2], hz, hf, h2,
+          Or.inl ⟨e, List.mem_append_right _ hm, hid, rfl, rfl, rfl⟩⟩
+      | none =>
+        refine ⟨i, s.heap.length, s.heap ++ [[]], by rw [h1, getHist_fresh hl1 hl2], hz, hf, h2,
+          Or.inr ⟨rfl, rfl, rfl, ?_⟩⟩
+        intro e he
+        rcases List.mem_append.1 he with h | h
+        · exact lookupC_none hl1 e h
+        · exact lookupC_none hl2 e h
+
+theorem ObjInv.obj_lt {s : CLdb} {h : List Ver} {o : Nat} {v : Ver} {top : Nat} (hoi : ObjInv s h o v top) :
+    o < s.heap.length := by
+  rcases Nat.lt_or_ge o s.heap.length with hl | hl
+  · exact hl
+  · have := hoi.obj; rw [List.getElem?_eq_none hl] at this; cases this
+
+theorem new_ent_mem (cfg : Cfg) (s : CLdb) (i to : Id) (o : Nat) (heap0 : List Raw) :
+    (⟨i, s.ldb.frontierId, o⟩ : CEnt) ∈ (getHistWith cfg s i to o heap0).1.ents := by
+  simp only [getHistWith, CLdb.ents, List.mem_append]
+  by_cases hn : absDiff i.height s.ldb.frontierId.height < cfg.maxDiff
+  · left; simp [hn, cacheAdd]
+  · right; simp [hn, cacheAdd]
+
+/-- everything the later theorems need to know about one `Get` on a running manager in an invariant state -/
+theorem CInv.get {cfg : Cfg} {s : CLdb} {h : List Ver} (hi : CInv s h) (hs : s.stopped = false) (i : Id) :
+    CInv (s.get cfg i).1 h ∧ (s.get cfg i).1.ldb = s.ldb ∧ (s.get cfg i).1.stopped = false ∧
+    (s.get cfg i).2.map (CRoot.resolve (s.get cfg i).1.heap) = s.ldb.get i ∧
+    (∀ vw ∈ s.views, vw ∈ (s.get cfg i).1.views) ∧
+    s.heap.length ≤ (s.get cfg i).1.heap.length ∧
+    (∀ o', o' < s.heap.length → (∀ e ∈ (s.get cfg i).1.ents, e.obj ≠ o') →
+      (s.get cfg i).1.heap[o']? = s.heap[o']?) ∧
+    (∀ e ∈ (s.get cfg i).1.ents, e.obj < s.heap.length → ∃ e0 ∈ s.ents, e0.obj = e.obj) := by
+  rcases get_shape cfg s i hs with ⟨h1, h2⟩ | ⟨to, o, heap0, hg, hz, hf, hans, hhit⟩
+  · rw [h1]
+    exact ⟨hi, rfl, hs, h2, fun _ hv => hv, Nat.le_refl _, fun _ _ _ => rfl, fun e he _ => ⟨e, he, rfl⟩⟩
+  · -- the identifier is a version on the chain
+    have hex : ∃ v ∈ h, v.id = i := by
+      apply Classical.byContradiction
+      intro hno
+      have := hi.inv.get_unknown hz (fun v hv e => hno ⟨v, hv, e⟩)
+      rw [this] at hans; cases hans
+    obtain ⟨v, hv, rfl⟩ := hex
+    have hvh := hi.inv.inv0.hchain.mem_height hv
+    rw [hg]
+    have hstop : (getHistWith cfg s v.id to o heap0).1.stopped = false := hs
+    have hviews : ∀ vw ∈ s.views, vw ∈ (getHistWith cfg s v.id to o heap0).1.views :=
+      fun vw hvw => List.mem_cons_of_mem _ hvw
+    rcases hhit with ⟨e, he, heid, rfl, rfl, rfl⟩ | ⟨rfl, rfl, rfl, hnone⟩
+    · -- hit: the object of entry `e`
+      obtain ⟨v', top, hoi⟩ := hi.objs e he
+      obtain ⟨hid, _, hlo, hto⟩ := hoi.ents e he rfl
+      have hvv : v' = v := hi.inv.chain.hash_inj hoi.mem hv (by rw [← hid, heid])
+      subst hvv
+      obtain ⟨hinv, hobj⟩ := hi.getHistWith_inv (cfg := cfg) hv e.tag e.obj s.heap top hlo hto hoi.hi hoi.obj
+        (fun _ _ _ => rfl) (Nat.le_refl _) hoi.ents hoi.views
+      refine ⟨hinv, rfl, hstop, ?_, hviews, ?_, ?_, ?_⟩
+      · simp only [getHistWith, Option.map_some, CRoot.resolve]
+        rw [hans]
+        have := hobj
+        simp only [getHistWith] at this
+        rw [this]
+      · simp [getHistWith]
+      · intro o' _ hno
+        have hne : e.obj ≠ o' := hno ⟨v'.id, s.ldb.frontierId, e.obj⟩ (new_ent_mem cfg s v'.id e.tag e.obj s.heap)
+        simp only [getHistWith]
+        exact List.getElem?_set_ne hne
+      · intro e' he' _
+        rcases mem_ents_getHistWith he' with rfl | hold
+        · exact ⟨e, he, rfl⟩
+        · exact ⟨e', hold, rfl⟩
+    · -- neither level knows the identifier: a fresh object
+      have hget : (s.heap ++ [([] : Raw)])[s.heap.length]? = some [] := by simp
+      obtain ⟨hinv, hobj⟩ := hi.getHistWith_inv (cfg := cfg) hv v.id s.heap.length (s.heap ++ [[]]) v.id.height
+        (Nat.le_refl _) (Nat.le_refl _) hvh.2 (by rw [hget, Nat.sub_self]; rfl)
+        (fun o' _ hl => List.getElem?_append_left hl) (by simp)
+        (fun e he ho => absurd (ho ▸ (hi.objs e he).choose_spec.choose_spec.obj_lt) (Nat.lt_irrefl _))
+        (fun vw hvw ho => absurd (ho ▸ hi.viewsLt vw hvw) (Nat.lt_irrefl _))
+      refine ⟨hinv, rfl, hstop, ?_, hviews, ?_, ?_, ?_⟩
+      · simp only [getHistWith, Option.map_some, CRoot.resolve]
+        rw [hans]
+        have := hobj
+        simp only [getHistWith] at this
+        rw [this]
+      · simp [getHistWith]
+      · intro o' hl _
+        simp only [getHistWith]
+        rw [List.getElem?_set_ne (by omega)]
+        exact List.getElem?_append_left hl
+      · intro e' he' hlt
+        rcases mem_ents_getHistWith he' with rfl | hold
+        · exact absurd hlt (Nat.lt_irrefl _)
+        · exact ⟨e', hold, rfl⟩
+
+theorem get_stopped (cfg : Cfg) (s : CLdb) (i : Id) (hs : s.stopped = true) : s.get cfg i = (s, none) := by
+  simp [CLdb.get, hs]
+
+/-- a view whose overlay object is still referenced by a cache entry shows its version (whatever height the object has
+    been extended to in the meantime) -/
+theorem CInv.view_live {s : CLdb} {h : List Ver} (hi : CInv s h) {e : CEnt} (he : e ∈ s.ents) {vw : CView}
+    (hvw : vw ∈ s.views) (ho : vw.obj = e.obj) :
+    ∃ v ∈ h, vw.id = v.id ∧ Sorted (objAt s.heap vw.obj) ∧ Sorted vw.snap ∧
+      viewOf (oabs (objAt s.heap vw.obj)) (KvLogic.abs vw.snap) = v.store := by
+  obtain ⟨v, top, hoi⟩ := hi.objs e he
+  obtain ⟨hid, hss, w, hw, hws, h1, h2⟩ := hoi.views vw hvw ho
+  have hobj : objAt s.heap vw.obj = buildOverlay s.ldb.rollbacks v.id.height (top - v.id.height) [] := by
+    simp [objAt, ho, hoi.obj]
+  refine ⟨v, hoi.mem, hid, ?_, hss, ?_⟩
+  · rw [hobj]; exact buildOverlay_sorted _ _ _ _ Sorted.nil
+  · rw [hobj, hws]
+    exact overlay_view_at hi.inv.inv0.hchain hi.inv.inv0.rb hoi.mem hw top h1 h2 hoi.hi
+
+/-! ### the other operations -/
+
+theorem ObjInv.transfer {s s' : CLdb} {h : List Ver} {o : Nat} {v : Ver} {top : Nat} (hoi : ObjInv s h o v top)
+    (hl : s'.ldb.rollbacks = s.ldb.rollbacks) (hh : s'.heap[o]? = s.heap[o]?)
+    (he : ∀ e ∈ s'.ents, e ∈ s.ents) (hv : ∀ vw ∈ s'.views, vw ∈ s.views) : ObjInv s' h o v top :=
+  ⟨hoi.mem, hoi.lo, hoi.hi, by rw [hh, hl]; exact hoi.obj, fun e hm => hoi.ents e (he e hm),
+    fun vw hm => hoi.views vw (hv vw hm)⟩
+
+theorem CInv.evict {s : CLdb} {h : List Ver} (hi : CInv s h) (l : Bool) (i : Id) : CInv (s.evict l i) h := by
+  have hsub : ∀ e ∈ (s.evict l i).ents, e ∈ s.ents := by
+    intro e he
+    cases l
+    · simp only [CLdb.evict, CLdb.ents, Bool.false_eq_true, if_false, List.mem_append] at he ⊢
+      exact he.imp id mem_cacheEvict
+    · simp only [CLdb.evict, CLdb.ents, if_true, List.mem_append] at he ⊢
+      exact he.imp mem_cacheEvict id
+  have hldb : (s.evict l i).ldb = s.ldb := by cases l <;> rfl
+  have hheap : (s.evict l i).heap = s.heap := by cases l <;> rfl
+  have hviews : (s.evict l i).views = s.views := by cases l <;> rfl
+  refine ⟨hldb ▸ hi.inv, ?_, ?_⟩
+  · intro e he
+    obtain ⟨v, top, hoi⟩ := hi.objs e (hsub e he)
+    exact ⟨v, top, hoi.transfer (by rw [hldb]) (by rw [hheap]) hsub (by rw [hviews]; exact fun _ x => x)⟩
+  · rw [hviews, hheap]; exact hi.viewsLt
+
+theorem CInv.stop {s : CLdb} {h : List Ver} (hi : CInv s h) : CInv s.stop h :=
+  ⟨hi.inv, fun e he => by simp [CLdb.stop, CLdb.ents] at he, hi.viewsLt⟩
+
+/-- `Pop` of a manager that purges both levels -/
+theorem CInv.pop {cfg : Cfg} (hp1 : cfg.purgeL1 = true) (hp2 : cfg.purgeL2 = true) {s s' : CLdb} {v : Ver}
+    {h : List Ver} (hi : CInv s (v :: h)) (hpop : s.pop cfg = some s') :
+    CInv s' h ∧ s.ldb.pop = some s'.ldb ∧ s'.heap = s.heap ∧ s'.views = s.views ∧ s'.l1 = [] ∧ s'.l2 = [] ∧
+      s'.stopped = false := by
+  unfold CLdb.pop at hpop
+  by_cases hs : s.stopped = true
+  · simp [hs] at hpop
+  · simp only [hs, Bool.false_eq_true, if_false] at hpop
+    cases hl : s.ldb.pop with
+    | none => simp [hl] at hpop
+    | some l =>
+      simp only [hl, hp1, hp2, if_true, Option.some.injEq] at hpop
+      subst hpop
+      refine ⟨⟨⟨hi.inv.chain.tail, hi.inv.inv0.pop hl⟩, ?_, hi.viewsLt⟩, rfl, rfl, rfl, rfl, rfl, rfl⟩
+      intro e he
+      simp [CLdb.ents] at he
+
+/-- `Add` computes exactly what the cache-free `Add` computes; the caches only see the `Get(previous)` -/
+theorem CInv.add_eq {cfg : Cfg} {s : CLdb} {h : List Ver} (hi : CInv s h) (hs : s.stopped = false)
+    (prev id : Id) (ops : Patch) :
+    s.add cfg prev id ops = (s.ldb.add prev id ops).map (fun l => { (s.get cfg prev).1 with ldb := l }) := by
+  obtain ⟨_, hldb, _, hans, _⟩ := hi.get (cfg := cfg) hs prev
+  unfold CLdb.add Ldb.add
+  rw [← hans]
+  generalize s.get cfg prev = g at hldb ⊢
+  obtain ⟨s1, r⟩ := g
+  simp only at hldb ⊢
+  cases r with
+  | none => rfl
+  | some cr =>
+    simp only [Option.map_some, hldb]
+    by_cases hp : prev = s.ldb.frontierId
+    · simp [hp]
+    · simp only [hp, if_false, Option.map_some]
+      rw [← hldb]
+
+theorem add_stopped (cfg : Cfg) (s : CLdb) (prev id : Id) (ops : Patch) (hs : s.stopped = true) :
+    s.add cfg prev id ops = none := by
+  simp [CLdb.add, get_stopped cfg s prev hs]
+
+theorem get_frontier_same (cfg : Cfg) (s : CLdb) (hs : s.stopped = false) : (s.get cfg s.ldb.frontierId).1 = s := by
+  rcases get_shape cfg s s.ldb.frontierId hs with ⟨h1, _⟩ | ⟨_, _, _, _, _, hf, _⟩
+  · exact h1
+  · exact absurd rfl hf
+
+/-- a commit on the frontier leaves heap, caches and views alone and keeps every cache entry valid -/
+theorem CInv.add_frontier {cfg : Cfg} {s s' : CLdb} {h : List Ver} {id : Id} {ops : Patch} (hi : CInv s h)
+    (hok : AddOk s.ldb.frontierId h id ops) (ha : s.add cfg s.ldb.frontierId id ops = some s') :
+    CInv s' (commitVer h id ops :: h) ∧ s.ldb.add s.ldb.frontierId id ops = some s'.ldb ∧ s'.heap = s.heap ∧
+      s'.views = s.views ∧ s'.l1 = s.l1 ∧ s'.l2 = s.l2 ∧ s'.stopped = false := by
+  have hs : s.stopped = false := by
+    cases hst : s.stopped with
+    | false => rfl
+    | true => rw [add_stopped cfg s _ _ _ hst] at ha; cases ha
+  rw [hi.add_eq hs, get_frontier_same cfg s hs] at ha
+  cases hl : s.ldb.add s.ldb.frontierId id ops with
+  | none => simp [hl] at ha
+  | some l =>
+    simp only [hl, Option.map_some, Option.some.injEq] at ha
+    subst ha
+    have hfid := hi.inv.inv0.frontierId
+    have hinv0 : Inv0 l (commitVer h id ops :: h) := hi.inv.inv0.add ops hok.toHOk hl
+    have hleq := hi.inv.inv0.add_eq id ops hl
+    have hidh : id.height = h.length + 1 := by
+      rw [hok.height, hfid, hi.inv.inv0.hchain.topHeight]
+    refine ⟨⟨⟨Chain.cons hi.inv.chain (hfid ▸ hok), hinv0⟩, ?_, hi.viewsLt⟩, rfl, rfl, rfl, rfl, rfl, hs⟩
+    intro e he
+    obtain ⟨v, top, hoi⟩ := hi.objs e he
+    refine ⟨v, top, List.mem_cons_of_mem _ hoi.mem, hoi.lo, by simp only [List.length_cons]; have := hoi.hi; omega,
+      ?_, ?_, ?_⟩
+    · show s.heap[e.obj]? = some (buildOverlay l.rollbacks v.id.height (top - v.id.height) [])
+      rw [hoi.obj]
+      congr 1
+      apply buildOverlay_congr
+      intro i hlt
+      have h1 := hoi.lo
+      have h2 := hoi.hi
+      have hne : v.id.height + 1 + i ≠ id.height := by omega
+      rw [hleq]
+      simp only []
+      rw [lookupH_cons, if_neg (fun e => hne e.symm), lookupH_filter_ne _ _ _ hne]
+    · intro e' he' ho'
+      obtain ⟨a, ⟨w, hw, hwt⟩, c, d⟩ := hoi.ents e' he' ho'
+      exact ⟨a, ⟨w, List.mem_cons_of_mem _ hw, hwt⟩, c, d⟩
+    · intro vw hvw ho'
+      obtain ⟨a, b, w, hw, c, d, e⟩ := hoi.views vw hvw ho'
+      exact ⟨a, b, w, List.mem_cons_of_mem _ hw, c, d, e⟩
+
+/-- a commit on a known stale parent is the `Get(previous)` and nothing else -/
+theorem CInv.add_stale {cfg : Cfg} {s s' : CLdb} {h : List Ver} {prev id : Id} {ops : Patch} (hi : CInv s h)
+    (hne : prev ≠ s.ldb.frontierId) (ha : s.add cfg prev id ops = some s') :
+    s.stopped = false ∧ s' = (s.get cfg prev).1 ∧ s.ldb.add prev id ops = some s.ldb := by
+  have hs : s.stopped = false := by
+    cases hst : s.stopped with
+    | false => rfl
+    | true => rw [add_stopped cfg s _ _ _ hst] at ha; cases ha
+  obtain ⟨_, hldb, _⟩ := hi.get (cfg := cfg) hs prev
+  rw [hi.add_eq hs] at ha
+  cases hl : s.ldb.add prev id ops with
+  | none => simp [hl] at ha
+  | some l =>
+    have := add_stale_eq hne hl
+    subst this
+    simp only [hl, Option.map_some, Option.some.injEq] at ha
+    refine ⟨hs, ?_, rfl⟩
+    rw [← ha, ← hldb]
+
+/-! ### steps, runs, reachability -/
+
+/-- one operation of the cached manager; the second and fourth argument are the ghost histories of the current chain -/
+inductive CStep (cfg : Cfg) : CLdb → List Ver → CLdb → List Ver → Prop
+  | add {s s' h id ops} : AddOk s.ldb.frontierId h id ops → s.add cfg s.ldb.frontierId id ops = some s' →
+      CStep cfg s h s' (commitVer h id ops :: h)
+  | addStale {s s' h prev id ops} : prev ≠ s.ldb.frontierId → s.add cfg prev id ops = some s' → CStep cfg s h s' h
+  | pop {s s' v h} : s.pop cfg = some s' → CStep cfg s (v :: h) s' h
+  | get {s h} (i : Id) : CStep cfg s h (s.get cfg i).1 h
+  | evict {s h} (level1 : Bool) (i : Id) : CStep cfg s h (s.evict level1 i) h
+  | stop {s h} : CStep cfg s h s.stop h
+
+inductive CSteps (cfg : Cfg) : CLdb → List Ver → CLdb → List Ver → Prop
+  | refl {s h} : CSteps cfg s h s h
+  | tail {s h s1 h1 s2 h2} : CSteps cfg s h s1 h1 → CStep cfg s1 h1 s2 h2 → CSteps cfg s h s2 h2
+
+/-- reachable cached states (any interleaving of commits, stale commits, pops, gets, evictions, stop) -/
+def CReach (cfg : Cfg) (s : CLdb) (h : List Ver) : Prop := CSteps cfg CLdb.empty [] s h
+
+/-- the configuration purges both levels on `Pop` -/
+def Cfg.Purges (cfg : Cfg) : Prop := cfg.purgeL1 = true ∧ cfg.purgeL2 = true
+
+theorem CInv.init : CInv CLdb.empty [] :=
+  ⟨Inv.init, fun e he => by simp [CLdb.empty, CLdb.ents] at he, fun vw hvw => by simp [CLdb.empty] at hvw⟩
+
+theorem CStep.inv {cfg : Cfg} (hp : cfg.Purges) {s s' : CLdb} {h h' : List Ver} (hi : CInv s h)
+    (hst : CStep cfg s h s' h') : CInv s' h' := by
+  cases hst with
+  | add hok ha => exact (hi.add_frontier hok ha).1
+  | addStale hne ha =>
+    obtain ⟨hs, rfl, _⟩ := hi.add_stale hne ha
+    exact (hi.get hs _).1
+  | pop hpop => exact (hi.pop hp.1 hp.2 hpop).1
+  | get i =>
+    cases hs : s.stopped with
+    | false => exact (hi.get hs i).1
+    | true => rw [get_stopped cfg s i hs]; exact hi
+  | evict l i => exact hi.evict l i
+  | stop => exact hi.stop
+
+theorem CSteps.inv {cfg : Cfg} (hp : cfg.Purges) {s s' : CLdb} {h h' : List Ver} (hi : CInv s h)
+    (hst : CSteps cfg s h s' h') : CInv s' h' := by
+  induction hst with
+  | refl => exact hi
+  | tail _ st ih => exact st.inv hp ih
+
+theorem CReach.inv {cfg : Cfg} (hp : cfg.Purges) {s : CLdb} {h : List Ver} (hr : CReach cfg s h) : CInv s h :=
+  CSteps.inv hp CInv.init hr
+
+/-- projection: forgetting heap, caches and views, every step of the cached manager is a step (or no step) of the
+    cache-free manager `Ldb` of Model/Versioned.lean -/
+theorem CStep.reach {cfg : Cfg} (hp : cfg.Purges) {s s' : CLdb} {h h' : List Ver} (hi : CInv s h)
+    (hr : Reach s.ldb h) (hst : CStep cfg s h s' h') : Reach s'.ldb h' := by
+  cases hst with
+  | add hok ha => exact Reach.add hr hok (hi.add_frontier hok ha).2.1
+  | addStale hne ha =>
+    obtain ⟨hs, rfl, hadd⟩ := hi.add_stale hne ha
+    rw [(hi.get hs _).2.1]
+    exact Reach.addStale hr hne hadd
+  | pop hpop => exact Reach.pop hr (hi.pop hp.1 hp.2 hpop).2.1
+  | get i =>
+    cases hs : s.stopped with
+    | false => rw [(hi.get hs i).2.1]; exact hr
+    | true => rw [get_stopped cfg s i hs]; exact hr
+  | evict l i => cases l <;> exact hr
+  | stop => exact hr
+
+theorem CReach.reach {cfg : Cfg} (hp : cfg.Purges) {s : CLdb} {h : List Ver} (hr : CReach cfg s h) :
+    Reach s.ldb h := by
+  have : ∀ {s0 h0 s h}, CSteps cfg s0 h0 s h → CInv s0 h0 → Reach s0.ldb h0 → Reach s.ldb h := by
+    intro s0 h0 s h hst
+    induction hst with
+    | refl => intro _ hr; exact hr
+    | tail pre st ih => intro hi hr; exact st.reach hp (pre.inv hp hi) (ih hi hr)
+  exact this hr CInv.init Reach.init
+
+/-! ### views handed out earlier -/
+
+/-- view `vw`, read through the heap of state `s` (its overlay pointer dereferenced NOW), shows the content `X` -/
+structure ViewShows (s : CLdb) (vw : CView) (X : Store) : Prop where
+  lt : vw.obj < s.heap.length
+  sortedObj : Sorted (objAt s.heap vw.obj)
+  sortedSnap : Sorted vw.snap
+  shows : viewOf (oabs (objAt s.heap vw.obj)) (KvLogic.abs vw.snap) = X
+
+theorem view_step_core {s s' : CLdb} {h : List Ver} (hi : CInv s h) (hi' : CInv s' h)
+    (hmono : ∀ vw ∈ s.views, vw ∈ s'.views) (hlen : s.heap.length ≤ s'.heap.length)
+    (hun : ∀ o', o' < s.heap.length → (∀ e ∈ s'.ents, e.obj ≠ o') → s'.heap[o']? = s.heap[o']?)
+    (hback : ∀ e ∈ s'.ents, e.obj < s.heap.length → ∃ e0 ∈ s.ents, e0.obj = e.obj)
+    {vw : CView} (hvw : vw ∈ s.views) {X : Store} (hsh : ViewShows s vw X) : ViewShows s' vw X := by
+  by_cases href : ∃ e ∈ s'.ents, e.obj = vw.obj
+  · obtain ⟨e, he, heo⟩ := href
+    obtain ⟨e0, he0, h0⟩ := hback e he (heo ▸ hsh.lt)
+    obtain ⟨v, hv, hid, _, _, hshow⟩ := hi.view_live he0 hvw (by rw [h0, heo])
+    obtain ⟨v', hv', hid', hso', hss', hshow'⟩ := hi'.view_live he (hmono vw hvw) heo.symm
+    have hvv : v' = v := hi.inv.chain.hash_inj hv' hv (by rw [← hid', hid])
+    subst hvv
+    have hX : X = v'.store := by rw [← hsh.shows, hshow]
+    exact ⟨Nat.lt_of_lt_of_le hsh.lt hlen, hso', hss', by rw [hshow', hX]⟩
+  · have hsame : s'.heap[vw.obj]? = s.heap[vw.obj]? :=
+      hun vw.obj hsh.lt (fun e he heo => href ⟨e, he, heo⟩)
+    have hobj : objAt s'.heap vw.obj = objAt s.heap vw.obj := by simp [objAt, hsame]
+    exact ⟨Nat.lt_of_lt_of_le hsh.lt hlen, by rw [hobj]; exact hsh.sortedObj, hsh.sortedSnap,
+      by rw [hobj]; exact hsh.shows⟩
+
+theorem ViewShows.of_heap {s s' : CLdb} {vw : CView} {X : Store} (hh : s'.heap = s.heap) (hsh : ViewShows s vw X) :
+    ViewShows s' vw X :=
+  ⟨by rw [hh]; exact hsh.lt, by rw [hh]; exact hsh.sortedObj, hsh.sortedSnap, by rw [hh]; exact hsh.shows⟩
+
+/-- one step of the manager — in particular a `Get` that extends the very object the view points to — does not change
+    what a view handed out earlier shows -/
+theorem CStep.view {cfg : Cfg} (hp : cfg.Purges) {s s' : CLdb} {h h' : List Ver} (hi : CInv s h)
+    (hst : CStep cfg s h s' h') {vw : CView} (hvw : vw ∈ s.views) {X : Store} (hsh : ViewShows s vw X) :
+    vw ∈ s'.views ∧ ViewShows s' vw X := by
+  have hget : ∀ i, s.stopped = false → vw ∈ (s.get cfg i).1.views ∧ ViewShows (s.get cfg i).1 vw X := by
+    intro i hs
+    obtain ⟨hi', _, _, _, hmono, hlen, hun, hback⟩ := hi.get (cfg := cfg) hs i
+    exact ⟨hmono vw hvw, view_step_core hi hi' hmono hlen hun hback hvw hsh⟩
+  cases hst with
+  | add hok ha =>
+    obtain ⟨_, _, hh, hv, _⟩ := hi.add_frontier hok ha
+    exact ⟨by rw [hv]; exact hvw, hsh.of_heap hh⟩
+  | addStale hne ha =>
+    obtain ⟨hs, rfl, _⟩ := hi.add_stale hne ha
+    exact hget _ hs
+  | pop hpop =>
+    obtain ⟨_, _, hh, hv, _⟩ := hi.pop hp.1 hp.2 hpop
+    exact ⟨by rw [hv]; exact hvw, hsh.of_heap hh⟩
+  | get i =>
+    cases hs : s.stopped with
+    | false => exact hget i hs
+    | true => rw [get_stopped cfg s i hs]; exact ⟨hvw, hsh⟩
+  | evict l i => cases l <;> exact ⟨hvw, ViewShows.of_heap (s := s) rfl hsh⟩
+  | stop => exact ⟨hvw, ViewShows.of_heap (s := s) rfl hsh⟩
+
+theorem CSteps.view {cfg : Cfg} (hp : cfg.Purges) {s s' : CLdb} {h h' : List Ver} (hi : CInv s h)
+    (hst : CSteps cfg s h s' h') {vw : CView} (hvw : vw ∈ s.views) {X : Store} (hsh : ViewShows s vw X) :
+    vw ∈ s'.views ∧ ViewShows s' vw X := by
+  induction hst with
+  | refl => exact ⟨hvw, hsh⟩
+  | tail pre st ih => exact st.view hp (pre.inv hp hi) ih.1 ih.2
+
 end ZV.VersionedCache
